@@ -47,6 +47,8 @@ func (o op) String() string {
 		return fmt.Sprintf("put %d %d %d", o.k, o.vid, o.sz)
 	case "get", "del":
 		return fmt.Sprintf("%s %d", o.kind, o.k)
+	case "psize", "plen":
+		return o.kind
 	default:
 		return fmt.Sprintf("%s %d", o.kind, o.vid)
 	}
@@ -93,6 +95,37 @@ func (w *world) exec(o op) string {
 			return "no"
 		}
 		return "v " + strconv.Itoa(v.id)
+	case "psize", "plen":
+		// Size()/Len() probed from a concurrent caller: they must not return
+		// while another call is inside its critical section.
+		// "held": some other caller is between taking the mutex and returning
+		// (the scheduler's own bookkeeping; it resumed us, so the read is ordered)
+		held := false
+		if sc := cur.Load(); sc != nil {
+			held = sc.holder != -1
+		}
+		ch := make(chan uint64, 1)
+		go func() {
+			if o.kind == "psize" {
+				ch <- w.c.Size()
+			} else {
+				ch <- uint64(w.c.Len())
+			}
+		}()
+		wait := time.Second
+		if held {
+			wait = 3 * time.Millisecond
+		}
+		h := "held0"
+		if held {
+			h = "held1"
+		}
+		select {
+		case v := <-ch:
+			return fmt.Sprintf("%s v %d", h, v)
+		case <-time.After(wait):
+			return h + " blocked"
+		}
 	case "poison":
 		if v := w.vals[o.vid]; v != nil {
 			v.bad.Store(true)
@@ -379,6 +412,18 @@ func runSchedule(w *world, progs [][]op, choices []int) (branching []int, tids [
 			return branching, tids, s, "ok"
 		}
 		if len(en) == 0 {
+			// A probe's reader that was waiting for the mutex may hold it for an
+			// instant after the writer left: look again before calling it a deadlock.
+			retried := false
+			for i := 0; i < 200 && !retried; i++ {
+				time.Sleep(500 * time.Microsecond)
+				if w.c.VerifLockFree() {
+					retried = true
+				}
+			}
+			if retried {
+				continue
+			}
 			return branching, tids, s, "DEADLOCK"
 		}
 		c := 0
@@ -463,6 +508,11 @@ func ConcExhaustive(t *tr.W, r *rand.Rand, nprogs int, maxSched int) {
 			}
 			for j := 0; j < nops; j++ {
 				o := g.next(false)
+				if r.Intn(7) == 0 {
+					o = op{kind: []string{"psize", "plen"}[r.Intn(2)]}
+					progs[i] = append(progs[i], o)
+					continue
+				}
 				if r.Intn(3) > 0 {
 					// bias to the same key and to puts: that is where races live
 					o.k = 0
@@ -518,6 +568,10 @@ func ConcRandom(t *tr.W, r *rand.Rand, n int) {
 		progs := make([][]op, nth)
 		for k := range progs {
 			for j := 1 + r.Intn(4); j > 0; j-- {
+				if r.Intn(6) == 0 {
+					progs[k] = append(progs[k], op{kind: []string{"psize", "plen"}[r.Intn(2)]})
+					continue
+				}
 				progs[k] = append(progs[k], g.next(false))
 			}
 		}
